@@ -36,14 +36,17 @@ pub struct GenCfg {
     pub max_total_need: u64,
     /// ids get this prefix (HTTP engine: request number), "" otherwise
     pub single_type: bool,
+    /// C12's small sub-family: few ticks, short durations, shunting in {0, 1 tick}, dead-heads in
+    /// {0, 1, 3 ticks} so that ties and non-transitive reachability are the rule
+    pub small_grid: bool,
 }
 
 impl GenCfg {
     pub const fn quick() -> GenCfg {
-        GenCfg { max_departures: 8, max_slots: 3, force_slots: false, heavy_demand: false, max_need: 6, max_total_need: 22, single_type: false }
+        GenCfg { max_departures: 8, max_slots: 3, force_slots: false, heavy_demand: false, max_need: 6, max_total_need: 22, single_type: false, small_grid: false }
     }
     pub const fn thorough() -> GenCfg {
-        GenCfg { max_departures: 16, max_slots: 4, force_slots: false, heavy_demand: false, max_need: 6, max_total_need: 36, single_type: false }
+        GenCfg { max_departures: 16, max_slots: 4, force_slots: false, heavy_demand: false, max_need: 6, max_total_need: 36, single_type: false, small_grid: false }
     }
 }
 
@@ -107,7 +110,7 @@ pub fn decode_inst(t: &Tape, cfg: &GenCfg, prefix: &str) -> Inst {
                 dur[i][j] = dur[j][i];
                 dist[i][j] = dist[j][i];
             } else {
-                dur[i][j] = dur_choices[pick_w(f(r, j), &[6, 2, 4, 3, 2, 1])];
+                dur[i][j] = if cfg.small_grid { choose(f(r, j), &[600u64, 0, 1800]) } else { dur_choices[pick_w(f(r, j), &[6, 2, 4, 3, 2, 1])] };
                 dist[i][j] = dist_choices[pick_w(f(r, MAX_LOCS + j), &[6, 1, 4, 3, 1])];
             }
         }
@@ -120,8 +123,8 @@ pub fn decode_inst(t: &Tape, cfg: &GenCfg, prefix: &str) -> Inst {
     let dh_distances: Vec<Vec<u64>> = order.iter().map(|&i| order.iter().map(|&j| dist[i][j]).collect()).collect();
 
     // ---- parameters
-    let shunt_min = choose(f(p, 1), &[0u64, 600, 60, 1]);
-    let shunt_dh = choose(f(p, 2), &[0u64, 300, 60]);
+    let shunt_min = if cfg.small_grid { choose(f(p, 1), &[0u64, 600]) } else { choose(f(p, 1), &[0u64, 600, 60, 1]) };
+    let shunt_dh = if cfg.small_grid { choose(f(p, 2), &[0u64, 600]) } else { choose(f(p, 2), &[0u64, 300, 60]) };
     let forbid = match pick_w(f(p, 0), &[5, 2, 2]) {
         0 => None,
         1 => Some(false),
@@ -153,7 +156,7 @@ pub fn decode_inst(t: &Tape, cfg: &GenCfg, prefix: &str) -> Inst {
         for k in 0..nseg {
             let b = 3 + 4 * k;
             let dest = pick(f(r, b), nlocs);
-            let duration = choose(f(r, b + 1), &[1800u64, 600, 1200, 3600, 1, 7200]);
+            let duration = if cfg.small_grid { choose(f(r, b + 1), &[600u64, 1200]) } else { choose(f(r, b + 1), &[1800u64, 600, 1200, 3600, 1, 7200]) };
             let distance = choose(f(r, b + 2), &[15_000u64, 1000, 0, 120_000]);
             let max_form = match pick_w(f(r, b + 3), &[5, 2, 2, 1]) {
                 0 => None,
@@ -187,13 +190,13 @@ pub fn decode_inst(t: &Tape, cfg: &GenCfg, prefix: &str) -> Inst {
         let route = &routes[ri];
         let vt = types.iter().find(|x| x.id == route.vtype).unwrap();
         // most departures inside one day so that chains and ties are frequent
-        let tick = pick(f(r, 1), 108) as i64 + if pick_w(f(r, 2), &[7, 1]) == 1 { 144 } else { 0 };
-        let mut time = base + tick * TICK + if jitter_mode == 1 { choose(f(r, 2), &[0i64, 1, 59]) } else { 0 };
+        let tick = if cfg.small_grid { pick(f(r, 1), 6) as i64 } else { pick(f(r, 1), 108) as i64 + if pick_w(f(r, 2), &[7, 1]) == 1 { 144 } else { 0 } };
+        let mut time = base + tick * TICK + if jitter_mode == 1 && !cfg.small_grid { choose(f(r, 2), &[0i64, 1, 59]) } else { 0 };
         let mut segs = Vec::new();
         for (k, rs) in route.segs.iter().enumerate() {
             let b = 3 + 3 * k;
             if k > 0 {
-                time += shunt_min as i64 + choose(f(r, b), &[0i64, 600, 1800]);
+                time += shunt_min as i64 + if cfg.small_grid { choose(f(r, b), &[0i64, 600]) } else { choose(f(r, b), &[0i64, 600, 1800]) };
             }
             let need_w: [u32; 5] = if cfg.heavy_demand { [2, 3, 3, 2, 2] } else { [8, 3, 2, 1, 1] };
             let cap = vt.capacity;
@@ -245,8 +248,8 @@ pub fn decode_inst(t: &Tape, cfg: &GenCfg, prefix: &str) -> Inst {
     for i in 0..nslots {
         let r: &[u32] = srecs.get(i).map(|r| r.as_slice()).unwrap_or(&[]);
         let loc = pick(f(r, 0), nlocs);
-        let tick = pick(f(r, 1), 144) as i64;
-        let duration = choose(f(r, 2), &[3600i64, 600, 14400]);
+        let tick = if cfg.small_grid { pick(f(r, 1), 8) as i64 } else { pick(f(r, 1), 144) as i64 };
+        let duration = if cfg.small_grid { choose(f(r, 2), &[600i64, 1200]) } else { choose(f(r, 2), &[3600i64, 600, 14400]) };
         let tracks = 1 + pick_w(f(r, 3), &[4, 3, 1]) as u64;
         slot_list.push(SlotIn {
             id: format!("{}M{}", prefix, i),
